@@ -7,6 +7,7 @@
 -/
 import Panrpc.Generated.Current
 import Panrpc.Model.Broadcaster
+import Driver.RemoteDef
 
 open Panrpc
 
@@ -84,6 +85,7 @@ def handle (st : St) (line : String) : St × String :=
       | some s' => ({ st with bc := s' }, "ok")
       | none => ({ st with dead := true }, s!"rejected {line}")
     | none => (st, s!"bad-op {line}")
+  | "rw" :: rest => (st, remoteDefQuery rest)
   | _ => (st, s!"bad-op {line}")
 
 partial def loop (h : IO.FS.Stream) (out : IO.FS.Stream) (st : St) : IO Unit := do
